@@ -157,3 +157,23 @@ func TestC04_history(t *testing.T) {
 	e2Check(t, "C04", "history", 1200, e2RuleCommon+"cron workloads with crashes and restarts at generated instants; the real JobConfig controller persists status.lastScheduled, the restarted cron worker reads it; oracle: no schedule time at or before the lastScheduled persisted at the restart instant is requested again, and no schedule time older than start - maxDowntime; non-trivial = a restart happened with a persisted lastScheduled and at least one request afterwards; distinct = distinct trace",
 		p, []string{"C04"}, func(l []string) bool { return hasAny(l, "request-after-restart") })
 }
+
+// TestC15_isolated: one JobConfig, at most two Jobs, lots of independent lag
+// between the Job and JobConfig caches: nothing but the controller's own
+// JobConfig events can repair a status that was compared against a stale cache.
+func TestC15_isolated(t *testing.T) {
+	p := profileWith(baseProfile, func(p *e2Profile) {
+		p.maxJCs, p.maxJobs, p.steps = 1, 2, 22
+		p.weights["createJob"] = 8
+		p.weights["deleteJob"] = 8
+		p.weights["deliver"] = 10
+		p.weights["step"] = 10
+		p.weights["settle"] = 1
+		p.weights["kill"] = 0
+		p.weights["advance"] = 1
+		p.weights["resync"] = 0
+		p.weights["deletePod"] = 0
+	})
+	e2Check(t, "C15", "isolated", 1500, "as history, but with one JobConfig and at most two Jobs under heavy independent lag of the Job and JobConfig caches; the status is judged at quiescence before any resync; non-trivial = a Job was removed during the run; distinct = distinct trace",
+		p, []string{"C15"}, func(l []string) bool { return hasAny(l, "job-removed") })
+}
